@@ -12,7 +12,7 @@ from mc.gen import render
 
 ID = "C14"
 LEVEL = "fault_enumeration"
-LEVEL_TEXT = ("Complete enumeration of valid generated program x every top-level statement position x 20 classes of definite error "
+LEVEL_TEXT = ("Complete enumeration of valid generated program x every statement position (top level and inside blocks, named scopes, loop bodies and bodies of applied macros) x 20 classes of definite error "
               "(bad character, bad size suffix, bad index register, unterminated string, unterminated comment, missing closing brace, "
               "stray token, undefined symbol in an operand / in data, undefined macro, too few macro arguments, addressing mode or "
               "width the mnemonic lacks, branch out of range, *= to an unmapped bank, missing .include/.incbin/.table/.include_ips "
@@ -81,7 +81,7 @@ def setup(tier, seed):
 
 
 def bound(tier):
-    return "6 base programs x every top-level position x 20 error classes x 5 in-process entry points; 20 x 2 real CLI processes; controls"
+    return "6 base programs x every top-level and nested position x 20 error classes x 5 in-process entry points; 20 x 2 real CLI processes; controls"
 
 
 def base_programs():
@@ -173,6 +173,50 @@ def inject(prog, pos, text):
     return prog[:npre + pos] + [("raw", text)] + prog[npre + pos:]
 
 
+BODY_INDEX = {"block": 1, "scope": 2, "macro": 3, "for": 4}
+
+
+def nested_positions(prog):
+    """Paths to every statement-list position inside blocks, named scopes, loop bodies and the bodies of macros that
+    are applied somewhere in the program (an error inside a macro that is never applied is not a definite error)."""
+    called = set()
+
+    def calls(stmts):
+        for st in stmts:
+            if st[0] == "call":
+                called.add(st[1])
+            if st[0] in BODY_INDEX:
+                calls(st[BODY_INDEX[st[0]]])
+    calls(prog)
+    paths = []
+
+    def walk(stmts, prefix):
+        for i, st in enumerate(stmts):
+            if st[0] in BODY_INDEX and not (st[0] == "macro" and st[1] not in called):
+                body = st[BODY_INDEX[st[0]]]
+                for k in range(len(body) + 1):
+                    paths.append(prefix + [(i, k)])
+                walk(body, prefix + [(i, None)])
+    walk(prog, [])
+    return paths
+
+
+def inject_nested(prog, path, text):
+    def rec(stmts, path):
+        (i, k), rest = path[0], path[1:]
+        st = list(stmts[i])
+        bi = BODY_INDEX[st[0]]
+        body = list(st[bi])
+        if not rest:
+            body.insert(k, ("raw", text))
+        else:
+            body = rec(body, [(rest[0][0], rest[0][1])] + rest[1:])
+        st[bi] = body
+        return stmts[:i] + [tuple(st)] + stmts[i + 1:]
+    # a path is [(i, None), (j, None), ..., (m, k)]: descend by statement index, insert at k in the last body
+    return rec(list(prog), path)
+
+
 def run_fault(name, fault):
     prog = base_programs()[name]
     files = dict(c12.FILES)
@@ -182,13 +226,17 @@ def run_fault(name, fault):
     outcomes = set()
     evals = 0
     example = None
+    variants = []
     for pos in range(n_top + 1):
         if fault == "branch-out-of-range" and pos < 2:
             continue  # needs the anchor label (and a position) before it
-        if fault in ("bad-character", "bad-size-suffix", "bad-index-register", "undefined-symbol-operand", "mode-the-mnemonic-lacks",
-                     "width-the-mode-lacks", "branch-out-of-range", "undefined-symbol-data", "text-without-table") and pos == 0:
-            pass
-        src = render.source(inject(prog, pos, FAULTS[fault]))
+        variants.append((pos, inject(prog, pos, FAULTS[fault])))
+    for path in nested_positions(prog):
+        if fault == "missing-closing-brace":
+            continue  # an unbalanced brace inside a body is still an error, but which construct it breaks is layout-dependent
+        variants.append(("nested:" + "/".join(f"{i}.{k}" for i, k in path), inject_nested(prog, path, FAULTS[fault])))
+    for pos, faulty_prog in variants:
+        src = render.source(faulty_prog)
         for entry in ENTRIES:
             failed, announced, detail = run_entry(entry, src, files)
             evals += 1
